@@ -533,7 +533,16 @@ var (
 	curOps   atomic.Value // []string
 )
 
+// probeFatal: treat a violated internal invariant (red-black colour rule, black height, parent links) like an
+// oracle failure — used only to shrink a case to the first probe violation. Otherwise the first violation of
+// a case is kept in probeSeen and the case goes on: the PROPERTY speaks about answers and height only.
+var (
+	probeFatal bool
+	probeSeen  *failure
+)
+
 func runCase(r *hxlib.Run, ops []string, emit bool, cov func(string)) (fl *failure, flags map[string]bool) {
+	probeSeen = nil
 	curOps.Store(ops)
 	atomic.StoreInt64(&curIdx, 0)
 	m := treemap.New()
@@ -546,6 +555,13 @@ func runCase(r *hxlib.Run, ops []string, emit bool, cov func(string)) (fl *failu
 		}
 	}
 	fail := func(key, format string, a ...interface{}) {
+		if strings.HasPrefix(key, "probe:") && key != "probe:panic" && !probeFatal {
+			// an internal-invariant violation is not a property violation: remember the first one and go on
+			if probeSeen == nil {
+				probeSeen = &failure{key, fmt.Sprintf(format, a...)}
+			}
+			return
+		}
 		if fl == nil {
 			fl = &failure{key, fmt.Sprintf(format, a...)}
 		}
@@ -1374,6 +1390,51 @@ func one(r *hxlib.Run, ops []string, label string) {
 	}
 	if flags["iter-remove"] {
 		r.Count("case-removes-through-iterator")
+	}
+	if fl == nil && probeSeen != nil {
+		// The tree left the red-black envelope but every answer and the height bound were still right.
+		// Try to turn it into a property failure: the same history followed by a long churn over a small universe
+		// with the height measured all the time (a lost invariant tends to degrade further).
+		pb := *probeSeen
+		found := false
+		for try := 0; try < 6 && !found; try++ {
+			rr := r.R.Fork()
+			ext := append([]string{}, ops...)
+			u := []int{24, 48, 96, 200, 400, 1000}[try]
+			for i := 0; i < 6000; i++ {
+				switch {
+				case i%8 == 7:
+					ext = append(ext, "pre")
+				case rr.Chance(1, 2):
+					ext = append(ext, fmt.Sprintf("put %d %d", rr.Intn(u), rr.Intn(1000)))
+				default:
+					ext = append(ext, fmt.Sprintf("rm %d", rr.Intn(u)))
+				}
+			}
+			if f2, _ := runCase(r, ext, false, nil); f2 != nil {
+				ops, fl, found = ext, f2, true
+				r.Count("probe-violation-amplified-into-a-property-failure")
+			}
+		}
+		if !found {
+			// shrink to the first probe violation and report it as a broken correspondence
+			probeFatal = true
+			keep := hxlib.DDMin(len(ops), func(keep []int) bool {
+				cand := make([]string, len(keep))
+				for i, j := range keep {
+					cand[i] = ops[j]
+				}
+				f2, _ := runCase(r, cand, false, nil)
+				return f2 != nil && f2.key == pb.key
+			})
+			probeFatal = false
+			small := make([]string, len(keep))
+			for i, j := range keep {
+				small[i] = ops[j]
+			}
+			r.Broken(pb.key, pb.what+fmt.Sprintf(" — every answer and the height bound were still right on this case and on 6 churn extensions of it [case %s, %d ops after shrinking]", label, len(small)), caseJSON{small})
+			return
+		}
 	}
 	if fl == nil {
 		return
